@@ -138,7 +138,15 @@ structure WinX where
   binds : List Bind := []
   iterating : Bool := false
   needsDelete : Bool := false
+  /-- the references the application holds (the harness's tally: create +1, ref +1, unref -1, and -1 when a
+      destroyed parent takes the creation reference of a child still linked to it) -/
   appRefs : Nat := 1
+  /-- the window this one was created under -/
+  cparent : Option Id := none
+  /-- the application has closed this window itself -/
+  detached : Bool := false
+  /-- its destroyed parent has taken the creation reference -/
+  consumed : Bool := false
 deriving Repr, Inhabited
 
 /-- `struct TickitString`. -/
@@ -503,10 +511,19 @@ def releaseWin (st : St) (win : Id) : Out St := do
     else termUnref st
   else pure st
 
+/-- The application's bookkeeping after windows have died (the harness's `sync_consumed`): a window that was
+    still linked to a parent that is now dead has lost its creation reference to that parent. -/
+def consume (st : St) (dead : List Id) : St :=
+  { st with wx := st.wx.map (fun x =>
+      match x.cparent with
+      | some p => if !x.consumed && !x.detached && dead.contains p then { x with consumed := true, appRefs := x.appRefs - 1 } else x
+      | none => x) }
+
 /-- `tickit_window_unref`. -/
 def unrefW (cfg : Cfg) (st : St) (win : Id) : Out St := do
   let (t, dead) ← unrefT cfg st.tree win
-  dead.foldlM releaseWin { st with tree := t }
+  let st ← dead.foldlM releaseWin { st with tree := t }
+  pure (consume st dead)
 
 /-- `tickit_window_ref`. -/
 def refW (st : St) (win : Id) : Out St := do
@@ -528,7 +545,7 @@ def newWin (st : St) (parent : Id) (rect : Rect) (hidden lowest rootParent steal
   let id := st.tree.wins.size
   let w : Win := { parent := some parent, rect := rect, isVisible := !hidden, stealInput := steal }
   let t : Tree := { st.tree with wins := st.tree.wins.push w }
-  let wx := (st.wx ++ Array.replicate (id - st.wx.size) ({} : WinX)).push {}
+  let wx := (st.wx ++ Array.replicate (id - st.wx.size) ({} : WinX)).push { cparent := some parent }
   let t ← doHC t (if lowest then .insertLast else .insertFirst) parent id
   pure ({ st with tree := t, wx := wx }, id)
 
@@ -678,7 +695,8 @@ def simpleOp (cfg : Cfg) (st : St) (a : Act) (self : Option (Id × Int)) : Optio
       some (unrefW cfg (setX st w { getX st w with appRefs := (getX st w).appRefs - 1 }) w) else none
   | .ref w => if heldW st w then
       some (refW (setX st w { getX st w with appRefs := (getX st w).appRefs + 1 }) w) else none
-  | .close w => if heldW st w then some (liftT st (closeT cfg st.tree w)) else none
+  | .close w => if heldW st w then
+      some (liftT (setX st w { getX st w with detached := true }) (closeT cfg st.tree w)) else none
   | .restack c w => if usableW st w && isRestack c then some (liftT st (request st.tree c w)) else none
   | .hide w => if usableW st w then some (liftT st (hideT st.tree w)) else none
   | .«show» w => if usableW st w then some (liftT st (showT st.tree w)) else none
